@@ -21,6 +21,7 @@ import (
 var queries = map[string]string{
 	"direct":        "SELECT id, v + 1 AS e FROM stream WHERE v > 0",
 	"analytic":      "SELECT id, lag(v) AS p, acc_sum(v) AS t FROM stream",
+	"analytic-when": "SELECT id, k, lag(v) OVER (PARTITION BY k WHEN v > 3) AS p, acc_count(v, v > 2, v > 5) OVER (PARTITION BY k) AS c, had_changed(true, v) AS h FROM stream WHERE lag(v) OVER (PARTITION BY k) > 0 OR v > 0",
 	"cep":           "SELECT * FROM stream MATCH_RECOGNIZE (ORDER BY ts MEASURES MATCH_NUMBER() AS mn, LAST(id) AS l ONE ROW PER MATCH PATTERN (A+) DEFINE A AS v > 0)",
 	"tumbling-evt":  "SELECT count(*) AS c, collect(id) AS ids FROM stream GROUP BY TumblingWindow('20ms') WITH (TIMESTAMP='ts', TIMEUNIT='ms', ALLOWEDLATENESS='20ms')",
 	"tumbling-proc": "SELECT count(*) AS c FROM stream GROUP BY TumblingWindow('5ms')",
@@ -203,9 +204,18 @@ func oneBody(kind, strategy string, iter int) {
 		}
 		s.Stop()
 	}()
-	if kind == "direct" || kind == "analytic" {
-		wg.Add(1)
-		go func() { defer wg.Done(); s.EmitSync(map[string]any{"id": 7, "k": "a", "v": 1, "ts": int64(1000)}) }()
+	if kind == "direct" || kind == "analytic" || kind == "analytic-when" {
+		// two more callers on the synchronous path (rows that pass and rows that fail a WHEN gate)
+		for c := 0; c < 2; c++ {
+			c := c
+			wg.Add(1)
+			go func() {
+				defer wg.Done()
+				for i := 0; i < 4; i++ {
+					s.EmitSync(map[string]any{"id": 700 + c*10 + i, "k": []string{"a", "b"}[i%2], "v": 1 + (i+c)%6, "ts": int64(1000)})
+				}
+			}()
+		}
 	}
 	wg.Wait()
 	s.Stop()
